@@ -248,6 +248,18 @@ func (fx *FuncCtx) bind(st *State, obj types.Object, v Val) {
 	if obj == nil {
 		return
 	}
+	// a local array that is sliced somewhere lives in a memory region, so that
+	// the slices alias it
+	if av, ok := v.(ArrayV); ok && fx.eng.arraySliced(fx, obj) {
+		rid := fx.allocRegion(st)
+		n := IntLit(av.T.Len())
+		sv := SliceV{Rid: rid, Off: IntLit(0), Len: n, Cap: n, Elem: av.T.Elem()}
+		name := memName(av.T.Elem())
+		m := fx.heapGet(st, name, fx.memSort(av.T.Elem()))
+		st.heap[name] = fx.define(name, Store(m, rid, av.Arr))
+		st.vars[obj] = sv
+		return
+	}
 	if fx.eng.addrTaken(fx, obj) {
 		// heap-allocated local
 		ref := fx.freshConst("loc_"+obj.Name(), SInt)
